@@ -59,30 +59,52 @@ func (a fakeAddr) Network() string { return "sim" }
 func (a fakeAddr) String() string  { return string(a) }
 
 type simNode struct {
-	cl     *simCluster
-	idx    int
-	id     string
-	host   string
-	uri    *pilosa.URI
-	dir    string
-	srv    *pilosa.Server
-	api    *pilosa.API
-	hdl    *http.Handler
-	client *http.InternalClient // client whose default URI is this node (src = this node)
-	ext    *http.InternalClient // external client pointed at this node (src = "client")
-	coord  bool
-	opened bool
-	ser    pilosa.Serializer
+	cl       *simCluster
+	idx      int
+	id       string
+	host     string
+	uri      *pilosa.URI
+	dir      string
+	srv      *pilosa.Server
+	api      *pilosa.API
+	hdl      *http.Handler
+	client   *http.InternalClient // client whose default URI is this node (src = this node)
+	ext      *http.InternalClient // external client pointed at this node (src = "client")
+	coord    bool
+	opened   bool
+	opening  bool // an asynchronous Open is in flight
+	released bool
+	gone     bool // removed from the cluster by a completed resize
+	ser      pilosa.Serializer
 }
 
 type simCluster struct {
-	c        *simrt.Ctx
-	net      *simrt.Net
-	nodes    []*simNode
-	replicas int
-	poolSize int
-	serWrap  func(n *simNode, s pilosa.Serializer) pilosa.Serializer
+	c          *simrt.Ctx
+	net        *simrt.Net
+	nodes      []*simNode
+	replicas   int
+	poolSize   int
+	serWrap    func(n *simNode, s pilosa.Serializer) pilosa.Serializer
 	aeInterval time.Duration
+	idFor      func(i int) string // node id of the i-th node (default "node<i>")
+}
+
+// joinNodeAsync builds nd and opens it in a background task, then delivers its
+// join event to the coordinator; it does not wait for the node to be admitted.
+func (cl *simCluster) joinNodeAsync(nd *simNode) error {
+	if err := nd.build(); err != nil {
+		return err
+	}
+	nd.opening = true
+	cl.c.S.GoTask("open-"+nd.id, func() {
+		defer func() { nd.opening = false }()
+		if err := nd.srv.Open(); err != nil {
+			cl.c.Logf("open %s failed: %v", nd.id, err)
+			return
+		}
+		nd.opened = true
+	})
+	return cl.deliverJoin(cl.coordinator(), nd)
 }
 
 func newSimCluster(c *simrt.Ctx, n, replicas int) *simCluster {
@@ -101,7 +123,11 @@ func (cl *simCluster) addNodeSpec() *simNode {
 	if err != nil {
 		panic(err)
 	}
-	nd := &simNode{cl: cl, idx: i, id: fmt.Sprintf("node%d", i), host: host, uri: uri, dir: fmt.Sprintf("%s/node%d", cl.c.Dir, i), coord: i == 0}
+	id := fmt.Sprintf("node%d", i)
+	if cl.idFor != nil {
+		id = cl.idFor(i)
+	}
+	nd := &simNode{cl: cl, idx: i, id: id, host: host, uri: uri, dir: fmt.Sprintf("%s/node%d", cl.c.Dir, i), coord: i == 0}
 	cl.nodes = append(cl.nodes, nd)
 	return nd
 }
@@ -276,7 +302,20 @@ func (cl *simCluster) states() string {
 func (cl *simCluster) closeAll() {
 	for i := len(cl.nodes) - 1; i >= 0; i-- {
 		nd := cl.nodes[i]
-		if nd.srv != nil && nd.opened {
+		if nd.srv != nil && nd.opening {
+			// never admitted (its join was aborted): Open waits for admission with no
+			// way out; admit it by hand so that Open returns and the server can be closed
+			nd.released = true
+			co := cl.coordinator()
+			cs := &pilosa.ClusterStatus{ClusterID: "teardown", State: pilosa.ClusterStateNormal, Nodes: []*pilosa.Node{co.node(), nd.node()}}
+			if err := cl.deliver(nd, cs); err != nil {
+				cl.c.Logf("release %s: %v", nd.id, err)
+			}
+			for k := 0; k < 2000 && nd.opening; k++ {
+				simrt.Sleep(10 * time.Millisecond)
+			}
+		}
+		if nd.srv != nil && (nd.opened || nd.released) {
 			nd.close()
 		}
 	}
